@@ -216,9 +216,20 @@ def handler(st, opts):
     if isinstance(out, tt.TT) and len(out.cores) > 0 and op not in INPLACE and not problems:
         try:
             snap = algrun.snapshot(objs)
+            ref0 = project.dense(out.cores).clone()
             c0 = out.cores[0]
             out.set_core(0, (c0 * 2 + 1).detach().clone())
             stats["calls"] += 1
+            # the same call again: what it returns does not depend on what was done to the object returned before
+            if not e["guess"] and op not in ("dmrg_cross", "interp_uni", "interp_multi", "gradient", "layer", "amen_solve", "div", "rdiv", "mprod"):      # (mprod: the thunk draws a new factor matrix per call)
+                again = thunk()
+                if isinstance(again, tt.TT):
+                    if again is out:
+                        problems.append(P("aliased-result", "a second call returned the very object returned (and since modified) before"))
+                    else:
+                        da = project.dense(again.cores)
+                        if da.shape != ref0.shape or (da - ref0).abs().max().item() > 1e-9 * max(1.0, ref0.abs().max().item()):
+                            problems.append(P("aliased-result", "a second call returns another value after set_core on the object returned by the first call"))
             for n, why in algrun.changed(objs, snap):
                 problems.append(P("aliased-result", "set_core on the result changed argument '%s': %s" % (names[n], "; ".join(why)), {"arg": names[n]}))
             ref = project.dense(out.cores).clone()
